@@ -59,7 +59,8 @@ def translate():
     meta, i1 = fe.run(vf.REPO, out_dir)
     i2 = ie.run(vf.REPO, out_dir, meta)
     i3 = mm.run(vf.REPO, out_dir)
-    return [i1, i2, i3]
+    i4 = importlib.import_module('C07_init_data').run(vf.REPO, out_dir)
+    return [i1, i2, i3, i4]
 
 
 # ---------------------------------------------------------------------------------------------- environment
@@ -211,6 +212,38 @@ def rec_json(rec):
     return {k: sorted([list(x) for x in v], key=repr) for k, v in rec.items()}
 
 
+DB_FUNCS = ['normal_melting_point_temperature', 'normal_boiling_point_temperature', 'critical_point_temperature',
+            'critical_point_pressure', 'critical_point_volume', 'acentric_factor', 'triple_point_pressure',
+            'triple_point_temperature', 'heat_of_fusion', 'dipole_moment']
+
+
+def run_init_data(case):
+    """the real Chemical._init_data with the database look-ups replaced by the case's values"""
+    e = env(); tmo = e['tmo']
+    mod = sys.modules['thermosteam._chemical']
+    saved = {n: getattr(mod, n) for n in DB_FUNCS}
+    db = {'normal_melting_point_temperature': case['db_Tm'], 'heat_of_fusion': case['db_Hfus']}
+    e['n'] += 1
+    c = tmo.Chemical(f'C07d{e["n"]}_', cache=False, search_db=False, MW=16., Hf=0., S0=0.)
+    try:
+        for n in DB_FUNCS:
+            setattr(mod, n, (lambda v: (lambda CAS: v))(db.get(n)))
+        err = None
+        try:
+            c._init_data('0-00-0', 16., case['Tm'], None, None, None, None, None, None, None, case['Hfus'],
+                         None, None, None, None)
+        except Exception as ex:
+            err = type(ex).__name__
+            if err not in ERR: raise
+    finally:
+        for n, f in saved.items():
+            setattr(mod, n, f)
+    def o(x):
+        return None if x is None else fr_json(frac(x))
+    return {'stored_Hfus': o(c._Hfus), 'stored_Tm': o(c._Tm),
+            'Sfus': ['err', err] if err else (['none'] if c._Sfus is None else ['ok', fr_json(frac(c._Sfus))])}
+
+
 # ---------------------------------------------------------------------------------------------- generators
 TMS = [200., 273.25, 150.5, 250.]
 TBS = [350., 373.125, 400.5, 512.]
@@ -288,6 +321,10 @@ def gen_cases(rng, tier):
     for k in range(n):
         r = rng.random()
         ln = gen_ln(rng)
+        if r < 0.1:
+            cases.append({'type': 'sfus', 'Hfus': rng.choice([None, None, 0., 6010., 1000.5, -8.]), 'Tm': rng.choice([None, None, 0., 273.25, 150.]),
+                          'db_Hfus': rng.choice([None, 0., 6010., 2.5]), 'db_Tm': rng.choice([None, 0., 273.25, 200.]), 'ln': ln})
+            continue
         if r < 0.55:
             spec = gen_spec(rng, complete=rng.random() < 0.45)
             qs = []
@@ -337,6 +374,10 @@ def table_model(v):
 def run_impl(case):
     e = env(); tmo = e['tmo']
     out = {}
+    if case['type'] == 'sfus':
+        out = run_init_data(case)
+        out['vals'] = [out['Sfus']]
+        return out
     with patched_log(case['ln']):
         if case['type'] == 'chem':
             c, rec, err = build_chem(case['chem'])
@@ -413,6 +454,10 @@ def cmol(m):
 def coq_case(case, out):
     lnc, lnd = (q(x) for x in case['ln'])
     exp = clist([cpyv(o) for o in out['vals']])
+    if case['type'] == 'sfus':
+        def so(x):
+            return 'None' if x is None else f'(Some {q(F(x))})'
+        return f'(sfus_case {qo(case["Hfus"])} {qo(case["Tm"])} {so(out["stored_Hfus"])} {so(out["stored_Tm"])} {cpyv(out["Sfus"])})'
     if case['type'] == 'chem':
         qs = clist([f'(Q{fn} {PHC[ph]} {qo(T)} {qo(P)})' for fn, ph, T, P in case['queries']])
         return (f'(chem_case {lnc} {lnd} {cchem(case["chem"], out["rec"])} {qs} '
@@ -466,7 +511,9 @@ def classify(case, out):
         if s['hvap'] != 'ok' or s['hvap_val'] == 0: ks.append('data:Hvap-' + (s['hvap'] if s['hvap'] != 'ok' else 'zero'))
         if any(s[f] is None for f in ('Tm', 'Tb', 'Hfus', 'Sfus', 'S0')): ks.append('data:None-field')
         if s['Tm'] == 0 or s['Tb'] == 0: ks.append('data:zero-Tm-or-Tb')
-    if case['type'] == 'chem':
+    if case['type'] == 'sfus':
+        ks.append('sfus:args-' + ('given' if case['Hfus'] is not None and case['Tm'] is not None else 'None') + ':' + out['Sfus'][0])
+    elif case['type'] == 'chem':
         for (fn, ph, T, P), o in zip(case['queries'], out.get('vals', [])):
             ks.append(f'query:{fn}.{ph}:' + (o[0] if o[0] != 'err' else o[1]))
     else:
@@ -522,6 +569,32 @@ def oracle_chem(spec, Ts, Ps):
     return None
 
 
+def oracle_locked(spec, Ts, Ps):
+    """phase-locked chemicals, for every locked phase and every value of phase_ref"""
+    for sp in 'slg':
+        for pr in 'slg':
+            c, _, err = build_chem(dict(spec, kind='locked', sp=sp, pr=pr), analytic=True)
+            tag = f'[locked={sp},phase_ref={pr}]'
+            if err: return f'wiring{tag}: _init_energies raised {err} on complete data'
+            H, S, Cn = c.H, c.S, c.Cn
+            if not close(H(T_REF, P_REF), 0.): return f'H_ref_zero{tag}: H(T_ref) = {H(T_REF, P_REF)}'
+            if not close(S(T_REF, P_REF), spec['S0']): return f'S_ref{tag}: S(T_ref, P_ref) = {S(T_REF, P_REF)} != S0 = {spec["S0"]}'
+            for T in Ts:
+                h = 2. ** -6
+                dH = (H(T + h, Ps[0]) - H(T - h, Ps[0])) / (2 * h)
+                dS = (S(T + h, Ps[0]) - S(T - h, Ps[0])) / (2 * h)
+                if not close(dH, Cn(T), 1e-5): return f'dH_dT{tag}: dH/dT({T}) = {dH} but Cn = {Cn(T)}'
+                if not close(dS, Cn(T) / T, 1e-5): return f'dS_dT{tag}: dS/dT({T}) = {dS} but Cn/T = {Cn(T) / T}'
+                for P1 in Ps:
+                    for P2 in Ps:
+                        d = S(T, P2) - S(T, P1)
+                        want = -R_GAS * math.log(P2 / P1) if sp == 'g' else 0.
+                        if not close(d, want):
+                            return (f'locked_S_pressure{tag}: S({T},{P2}) - S({T},{P1}) = {d}, expected {want} '
+                                    f'({"gas: -R ln(P2/P1)" if sp == "g" else "condensed phase: no pressure dependence"})')
+    return None
+
+
 def oracle_mix(specs, mols, phase, T, P):
     e = env(); tmo = e['tmo']
     chems = [build_chem(s, analytic=True)[0] for s in specs]
@@ -562,7 +635,7 @@ def oracle(case):
         for pr in 'slg':
             msg = oracle_chem(dict(spec, pr=pr), Ts, Ps)
             if msg: return msg
-        return None
+        return oracle_locked(spec, Ts[:2], Ps)
     if case['type'] == 'mix':
         specs = [s for s in case['chems'] if complete(s)]
         if len(specs) < 2: return None
@@ -573,6 +646,15 @@ def oracle(case):
         return oracle_mix(specs, mols[:4], 'l', 350., P_REF)
     if case['type'] == 'db':
         return oracle_db(case)
+    if case['type'] == 'sfus':
+        out = run_init_data(case)
+        if out['stored_Hfus'] is not None and out['stored_Tm'] is not None and F(out['stored_Tm']) != 0:
+            want = float(F(out['stored_Hfus']) / F(out['stored_Tm']))
+            got = out['Sfus']
+            if got[0] != 'ok' or not close(float(F(got[1])), want):
+                return (f'jump_fus_entropy_undefined: _init_data(Hfus={case["Hfus"]}, Tm={case["Tm"]}) stores Hfus={float(F(out["stored_Hfus"]))}, '
+                        f'Tm={float(F(out["stored_Tm"]))} but Sfus={got} instead of Hfus/Tm={want}')
+        return None
     return None
 
 
@@ -599,7 +681,7 @@ def oracle_db(case):
 
 
 def search_cases(rng, tier):
-    out = []
+    out = [{'type': 'db', 'ID': 'Water', 'phase_ref': None}, {'type': 'db', 'ID': 'Ethanol', 'phase_ref': 'g'}]
     for k in range(40 if tier == 'quick' else 400):
         spec = gen_spec(rng, complete=True)
         spec['kind'], spec['sp'] = 'handle', None
